@@ -15,6 +15,12 @@ Tasks
                 chains; tolerance proportional to the requested forward and backward tolerances.
   switched      rk45 on a right-hand side with Python control flow on t (a parameter and the explicit time dependence are
                 active on one side of a switching time only): which tensors enter the dynamics changes along the trajectory.
+  shared_options histories of 2-3 solve_ivp calls (unrelated problems of the kinds above) that are given ONE caller-held forward-options
+                dict and ONE caller-held bck_options dict (or none): the caller changes method / tolerances in the forward dict
+                between the calls (and, in 'edited' histories, the content of bck_options); backward passes right after each call
+                or all at the end in a drawn order.  Each call is judged against its own closed form with the backward options
+                documented for THAT call (its forward options overridden by what bck_options held when it was made), and the
+                caller's dicts must still hold what the caller put there.
   fixed_conv    fixed-step methods on coupled families (linear, rotation, logistic): the discrepancy to the exact
                 sensitivities must shrink by >= 2^(p-1) (euler: 1.5) when every interval is halved (fine grids, >= 16
                 steps), or be at the rounding floor.
@@ -37,7 +43,10 @@ RULE = ("exact_chain: chain kind x forward method x backward method (same / othe
         "containers, siblings; unused tensor; non-tensor parameter; elementwise-derived parameters) x which of leaves/y0/ts require grad x cotangent "
         "pattern x grid (2..5 points, both directions, ragged, span 1e-3..30, offsets) x tensor/tuple state x order 1/2. adaptive: families with closed "
         "forms x rk45/rk23 x backward options (same, other tolerances, other method). fixed_conv: coupled families on 16..32-step grids and their "
-        "halvings. switched: piecewise right-hand side (Python control flow on t) x side x parameter placement x grid direction x which inputs require grad. Non-trivial = at least one requested gradient has a non-zero reference and at least one of {leaf, ts} requires grad; distinct by canonical case.")
+        "halvings. switched: piecewise right-hand side (Python control flow on t) x side x parameter placement x grid direction x which inputs require grad. shared_options: 2-3 calls x one caller-held forward-options dict "
+        "(method and tolerances changed between calls) x one caller-held bck_options dict (omitted / never touched / edited between calls; content any "
+        "subset of {method, atol+rtol}) x backward right after each call or deferred in a drawn order; non-trivial = forward options differ between at "
+        "least two calls and some call is non-trivial. Non-trivial = at least one requested gradient has a non-zero reference and at least one of {leaf, ts} requires grad; distinct by canonical case.")
 ASSUMPTIONS = [
     "float64; reference = torch autograd through closed forms (matrix_exp, polynomial algebra, explicit formulas)",
     "exact_chain tolerance: 1e4*eps*(1+|t0|/span)*nt*(magnitude of the abs-value evaluation of the solution polynomials and cotangents); "
@@ -48,6 +57,11 @@ ASSUMPTIONS = [
     "supplied parameter tensors are independent leaves or elementwise functions of their own leaf (AVOID_DERIVED_PARAMS): a tensor computed from "
     "another supplied tensor is over-counted by the non-recording backward (defect owned by C09)",
     "method names lower-case (D15 belongs to C18); leak defects D12/D13 do not affect values",
+    "shared_options: the backward options of a call are its own forward options overridden by the content of bck_options at the time of the call "
+    "(docstring: 'If not specified, it will take the same options as fwd_options'); only combinations whose backward integration has a derived "
+    "tolerance are generated (order-4 fixed-step or, on constants, Euler adjoint on chains; adaptive adjoint on families; rk23 adjoint only at "
+    "1e-6..1e-8 tolerances); the caller edits bck_options only between a call's backward pass and the next call; fixed-step methods ignore the "
+    "tolerances an earlier adaptive call left in the forward dict (**kwargs of the fixed-step solvers)",
 ]
 LEVEL_TEXT = ("Exploration against exact sensitivities: autograd through closed-form solutions, on problem classes where the fixed-step forward and "
               "adjoint integrations are exact (polynomial chains), with tight-tolerance adaptive integrations, and with a convergence-rate requirement "
@@ -236,9 +250,16 @@ def chain_split(eff, nlev, tdep, scale):
     return Qs, Cs
 
 
-def run_exact_chain(case):
+class Part:
+    """one solve_ivp problem of a case: `forward(**kwargs)` calls xitorch.solve_ivp with the given method / options,
+    `judge(res)` differentiates the result and compares it with the closed form (returns a Verdict)"""
+
+    def __init__(self, labels, empty, forward, judge):
+        self.labels, self.empty, self.forward, self.judge = labels, empty, forward, judge
+
+
+def exact_chain_part(case):
     from xitorch.integrate import solve_ivp
-    torch.manual_seed(0)
     ns, Qs_d, Cs_d, y0s_d, tdep, g = chain_desired(case)
     nlev = len(ns)
     spec = case["spec"]
@@ -281,34 +302,56 @@ def run_exact_chain(case):
     bck = case["bck"]
     labels = ["task=exact_chain", "chain=" + case["chain"], "fwd=" + method, "bck=" + (bck or "same"), "form=" + form] + \
         R.grid_labels(case["grid"]) + common_labels(case, spec)
-    if not wrt:
-        return discard("nothing_to_differentiate", labels)
-    kwargs = {"method": method}
-    if bck:
-        kwargs["bck_options"] = {"method": bck}
-    res = xt_call(solve_ivp, su.fcn, ts, y0, params=su.params, _where="forward", **kwargs)
-    got_outs = split(res) if form == "tensor" else list(res)
 
-    Qs, Cs = chain_split(su.eff(), nlev, tdep, su.scale)
-    svals = [(ts[i] - tc) * sc for i in range(nt)]
-    sols, mag = R.chain_exact(svals, y0s, Qs, Cs)
-    base = 1e4 * EPS * (1 + abs(tc) / span) * nt * (1.0 + mag)
-    Wmag = 4.0 * sum(s_.shape[1] for s_ in sols) * nt           # sum of |cotangent entries| (|N(0,1)| <~ 4)
+    def forward(**kwargs):
+        return xt_call(solve_ivp, su.fcn, ts, y0, params=su.params, _where="forward", **kwargs)
 
-    def tol_fn(order, G, s1, s2):
-        t = base * Wmag * s1 + 1e-12 * G
-        if order == 2:
-            t = t * 4.0 * len(wrt) * 3 * max(s2, 1.0)
-        return t
-    v, nonzero = compare(case, labels, got_outs, sols, wrt, names, scales, su.info["unused"], g, tol_fn, base)
-    if v is not None:
-        return v
-    return ok(labels, nontrivial=nonzero and (bool(leaves_g) or case["tsreq"]))
+    def judge(res):
+        got_outs = split(res) if form == "tensor" else list(res)
+        Qs, Cs = chain_split(su.eff(), nlev, tdep, su.scale)
+        svals = [(ts[i] - tc) * sc for i in range(nt)]
+        sols, mag = R.chain_exact(svals, y0s, Qs, Cs)
+        base = 1e4 * EPS * (1 + abs(tc) / span) * nt * (1.0 + mag)
+        Wmag = 4.0 * sum(s_.shape[1] for s_ in sols) * nt           # sum of |cotangent entries| (|N(0,1)| <~ 4)
+
+        def tol_fn(order, G, s1, s2):
+            t = base * Wmag * s1 + 1e-12 * G
+            if order == 2:
+                t = t * 4.0 * len(wrt) * 3 * max(s2, 1.0)
+            return t
+        v, nonzero = compare(case, labels, got_outs, sols, wrt, names, scales, su.info["unused"], g, tol_fn, base)
+        if v is not None:
+            return v
+        return ok(labels, nontrivial=nonzero and (bool(leaves_g) or case["tsreq"]))
+    return Part(labels, not wrt, forward, judge)
+
+
+def run_exact_chain(case):
+    torch.manual_seed(0)
+    part = exact_chain_part(case)
+    if part.empty:
+        return discard("nothing_to_differentiate", part.labels)
+    kwargs = {"method": case["method"]}
+    if case["bck"]:
+        kwargs["bck_options"] = {"method": case["bck"]}
+    return part.judge(part.forward(**kwargs))
+
+
+@st.composite
+def exact_chain_case_st(draw, method, chain, bck, orders=(1, 1, 2)):
+    """an exact_chain case for the given forward method, chain class and backward method (None: same as forward)"""
+    degs, tdep = R.CHAIN_KINDS[chain]
+    neff = len(degs) + sum(1 + (1 if td else 0) for td in tdep)
+    spec = draw(spec_st(neff, KINDS_QUICK))
+    req = [draw(st.sampled_from([True, True, False])) for _ in range(neff)]
+    return {"chain": chain, "method": method, "bck": bck, "grid": draw(R.grid_st(min_nt=2, max_nt=5, offsets=(0.0, 0.0, -3.0, 2.5, 40.0))),
+            "form": draw(st.sampled_from(["tensor", "tuple"])), "spec": spec, "req": req,
+            "y0req": draw(st.booleans()), "tsreq": draw(st.sampled_from([True, True, False])),
+            "cot": draw(st.sampled_from(["dense", "dense", "last", "one"])), "cotk": draw(st.integers(0, 7)),
+            "order": draw(st.sampled_from(list(orders))), "seed": draw(st.integers(0, 2 ** 31 - 1))}
 
 
 def exact_chain_st(tier):
-    kinds = KINDS_QUICK
-
     @st.composite
     def s(draw):
         method = draw(st.sampled_from(["rk4", "rk38", "rk4", "rk38", "euler"]))
@@ -321,15 +364,7 @@ def exact_chain_st(tier):
             bck = draw(st.sampled_from([None, None, "rk4", "rk38"]))
             if bck == method:
                 bck = None
-        degs, tdep = R.CHAIN_KINDS[chain]
-        neff = len(degs) + sum(1 + (1 if td else 0) for td in tdep)
-        spec = draw(spec_st(neff, kinds))
-        req = [draw(st.sampled_from([True, True, False])) for _ in range(neff)]
-        return {"chain": chain, "method": method, "bck": bck, "grid": draw(R.grid_st(min_nt=2, max_nt=5, offsets=(0.0, 0.0, -3.0, 2.5, 40.0))),
-                "form": draw(st.sampled_from(["tensor", "tuple"])), "spec": spec, "req": req,
-                "y0req": draw(st.booleans()), "tsreq": draw(st.sampled_from([True, True, False])),
-                "cot": draw(st.sampled_from(["dense", "dense", "last", "one"])), "cotk": draw(st.integers(0, 7)),
-                "order": draw(st.sampled_from([1, 1, 2])), "seed": draw(st.integers(0, 2 ** 31 - 1))}
+        return draw(exact_chain_case_st(method, chain, bck))
     return s()
 
 
@@ -384,8 +419,9 @@ def family_core(fam, form, nparts):
     return core
 
 
-def family_run(case, LT, method, opts, bck_options, tvals_override=None):
-    """run xitorch and the closed form; returns everything `compare` needs"""
+def family_run(case, LT, method, opts, bck_options, tvals_override=None, call=None):
+    """run xitorch and the closed form; returns everything `compare` needs.  `call(fcn, ts, y0, params)` replaces the
+    plain solve_ivp call built from (method, opts, bck_options) when given (histories with caller-held option dicts)"""
     from xitorch.integrate import solve_ivp
     fam, params_d, y0_d, tvals, span = family_case(case, LT)
     if tvals_override is not None:
@@ -406,11 +442,14 @@ def family_run(case, LT, method, opts, bck_options, tvals_override=None):
         y0_leaves = [p.clone().requires_grad_(bool(case["y0req"])) for p in torch.split(y0_d, sizes, dim=-1)]
         y0 = tuple(y0_leaves)
         y0cat = torch.cat(y0_leaves, dim=-1)
-    kwargs = dict(opts)
-    kwargs["method"] = method
-    if bck_options is not None:
-        kwargs["bck_options"] = dict(bck_options)
-    res = xt_call(solve_ivp, su.fcn, ts, y0, params=su.params, _where="forward", **kwargs)
+    if call is not None:
+        res = call(su.fcn, ts, y0, su.params)
+    else:
+        kwargs = dict(opts)
+        kwargs["method"] = method
+        if bck_options is not None:
+            kwargs["bck_options"] = dict(bck_options)
+        res = xt_call(solve_ivp, su.fcn, ts, y0, params=su.params, _where="forward", **kwargs)
     exact = R.family_exact(fam, ts, y0cat, scaled_params(fam, su.eff(), su.scale))
     if form == "tensor":
         got_outs, ref_outs = [res], [exact]
@@ -427,8 +466,9 @@ def family_run(case, LT, method, opts, bck_options, tvals_override=None):
 NEFF = {"linear": 1, "osc": 1, "tdecay": 2, "sep": 1, "logistic": 2}
 
 
-def run_adaptive(case):
-    torch.manual_seed(0)
+def adaptive_part(case):
+    """case["bck"] describes the backward options that are in force for this call (None: those of the forward integration)"""
+    from xitorch.integrate import solve_ivp
     method = case["method"]
     atol, rtol = 10.0 ** (-case["atol_e"]), 10.0 ** (-case["rtol_e"])
     opts = {"atol": atol, "rtol": rtol}
@@ -443,42 +483,74 @@ def run_adaptive(case):
             atol_b, rtol_b = 10.0 ** (-b["atol_e"]), 10.0 ** (-b["rtol_e"])
             bck_options["atol"], bck_options["rtol"] = atol_b, rtol_b
     g = torch.Generator().manual_seed(case["seed"] ^ 0x2468ace)
-    su, ts, got_outs, ref_outs, wrt, names, leaves_g, span, exact = family_run(case, case["LT"], method, opts, bck_options)
     spec = case["spec"]
     labels = ["task=adaptive", "family=" + case["family"], "fwd=" + method,
               "bck=" + ("same" if b is None else ("method_" + b["method"] if b.get("method") else "") + ("tol" if b.get("atol_e") else "")),
               "form=" + case["form"]] + R.grid_labels(case["grid"]) + common_labels(case, spec)
-    if not wrt:
-        return discard("nothing_to_differentiate", labels)
-    Y = float(exact.detach().abs().max())
+    empty = not (any(case["req"]) or case["y0req"] or case["tsreq"])
 
-    def tol_fn(order, G, s1, s2):
-        Z = 1.0 + Y + G
-        t = 2e3 * ((atol + rtol * Z) + (atol_b + rtol_b * Z)) * Z
-        if order == 2:
-            t = t * 10.0
-        return t
-    value_tol = 20.0 * 400 * (atol + rtol * Y) + 1e-12 * (1 + Y)
-    scales = [1.0] * len(wrt)
-    v, nonzero = compare(case, labels, got_outs, ref_outs, wrt, names, scales, su.info["unused"], g, tol_fn, value_tol)
-    if v is not None:
-        return v
-    return ok(labels, nontrivial=nonzero and (bool(leaves_g) or case["tsreq"]))
+    def forward(**kwargs):
+        if kwargs:
+            def call(fcn, ts, y0, params):
+                return xt_call(solve_ivp, fcn, ts, y0, params=params, _where="forward", **kwargs)
+        else:
+            call = None
+        return family_run(case, case["LT"], method, opts, bck_options, call=call)
+
+    def judge(res):
+        su, ts, got_outs, ref_outs, wrt, names, leaves_g, span, exact = res
+        Y = float(exact.detach().abs().max())
+
+        def tol_fn(order, G, s1, s2):
+            Z = 1.0 + Y + G
+            t = 2e3 * ((atol + rtol * Z) + (atol_b + rtol_b * Z)) * Z
+            if order == 2:
+                t = t * 10.0
+            return t
+        value_tol = 20.0 * 400 * (atol + rtol * Y) + 1e-12 * (1 + Y)
+        scales = [1.0] * len(wrt)
+        v, nonzero = compare(case, labels, got_outs, ref_outs, wrt, names, scales, su.info["unused"], g, tol_fn, value_tol)
+        if v is not None:
+            return v
+        return ok(labels, nontrivial=nonzero and (bool(leaves_g) or case["tsreq"]))
+    return Part(labels, empty, forward, judge)
+
+
+def run_adaptive(case):
+    torch.manual_seed(0)
+    part = adaptive_part(case)
+    res = part.forward()
+    if part.empty:
+        return discard("nothing_to_differentiate", part.labels)
+    return part.judge(res)
+
+
+@st.composite
+def adaptive_case_st(draw, tier, method, tol_e, bck, order):
+    """an adaptive case for the given forward method, forward tolerances 10^-tol_e and backward options in force"""
+    fam = draw(st.sampled_from(R.FAMILIES))
+    neff = NEFF[fam]
+    spec = draw(spec_st(neff, KINDS_QUICK, scales=(1.0, 0.5, 2.0)))
+    grid = draw(R.grid_st(min_nt=2, max_nt=(5 if tier == "quick" else 8), offsets=(0.0, 0.0, -3.0, 2.5)))
+    return {"family": fam, "method": method, "bck": bck, "atol_e": tol_e[0], "rtol_e": tol_e[1], "grid": grid,
+            "LT": draw(st.sampled_from([0.3, 1.0, 2.0] if method == "rk45" else [0.3, 1.0])),
+            "shape": draw(st.sampled_from([[1], [2], [3], [2, 2]])), "form": draw(st.sampled_from(["tensor", "tensor", "tuple"])),
+            "spec": spec, "req": [draw(st.sampled_from([True, True, False])) for _ in range(neff)],
+            "y0req": draw(st.booleans()), "tsreq": draw(st.sampled_from([True, True, False])),
+            "cot": draw(st.sampled_from(["dense", "dense", "last", "one"])), "cotk": draw(st.integers(0, 7)),
+            "order": order, "seed": draw(st.integers(0, 2 ** 31 - 1))}
 
 
 def adaptive_st(tier):
     @st.composite
     def s(draw):
         method = draw(st.sampled_from(["rk45", "rk45", "rk45", "rk23"]))
-        fam = draw(st.sampled_from(R.FAMILIES))
-        neff = NEFF[fam]
-        spec = draw(spec_st(neff, KINDS_QUICK, scales=(1.0, 0.5, 2.0)))
         order = draw(st.sampled_from([1, 1, 2]))
         if method == "rk23":
-            atol_e, rtol_e = draw(st.sampled_from([(7, 6), (8, 6)]))
+            tol_e = draw(st.sampled_from([(7, 6), (8, 6)]))
             order = 1 if tier == "quick" else order
         else:
-            atol_e, rtol_e = draw(st.sampled_from([(10, 9), (10, 9), (9, 8), (11, 10)]))
+            tol_e = draw(st.sampled_from([(10, 9), (10, 9), (9, 8), (11, 10)]))
         bmode = draw(st.sampled_from(["same", "same", "tol", "method", "both"]))
         bck = None
         if bmode != "same":
@@ -490,14 +562,7 @@ def adaptive_st(tier):
                 bck["atol_e"], bck["rtol_e"] = (7, 6) if bm == "rk23" else draw(st.sampled_from([(9, 8), (11, 10)]))
             if bm == "rk23" and tier == "quick":
                 order = 1
-        grid = draw(R.grid_st(min_nt=2, max_nt=(5 if tier == "quick" else 8), offsets=(0.0, 0.0, -3.0, 2.5)))
-        return {"family": fam, "method": method, "bck": bck, "atol_e": atol_e, "rtol_e": rtol_e, "grid": grid,
-                "LT": draw(st.sampled_from([0.3, 1.0, 2.0] if method == "rk45" else [0.3, 1.0])),
-                "shape": draw(st.sampled_from([[1], [2], [3], [2, 2]])), "form": draw(st.sampled_from(["tensor", "tensor", "tuple"])),
-                "spec": spec, "req": [draw(st.sampled_from([True, True, False])) for _ in range(neff)],
-                "y0req": draw(st.booleans()), "tsreq": draw(st.sampled_from([True, True, False])),
-                "cot": draw(st.sampled_from(["dense", "dense", "last", "one"])), "cotk": draw(st.integers(0, 7)),
-                "order": order, "seed": draw(st.integers(0, 2 ** 31 - 1))}
+        return draw(adaptive_case_st(tier, method, tol_e, bck, order))
     return s()
 
 
@@ -747,10 +812,164 @@ def switched_st(draw, tier="quick"):
             "loss": draw(st.sampled_from(["linear", "linear", "fit"])), "seed": draw(st.integers(0, 2 ** 31 - 1))}
 
 
+# ------------------------------------------------------------------------------------------------------------------
+# task shared_options: histories of solve_ivp calls that are given the SAME caller-held option dictionaries
+
+FIXED4 = ("rk4", "rk38")
+ADAPT = ("rk45", "rk23")
+TOL_TIGHT = [(10, 9), (9, 8), (11, 10)]
+TOL_RK23 = [(7, 6), (8, 6)]
+
+
+def _tol_of(d):
+    """(atol_e, rtol_e) stored in an option description, or None"""
+    return tuple(d["tol_e"]) if d.get("tol_e") else None
+
+
+def allowed_methods(bopt):
+    """forward methods whose backward integration (backward options = the forward options of the call overridden by the content
+    `bopt` of bck_options) is one this module has a derived tolerance for: an order-4 fixed-step (or, on constants, Euler)
+    adjoint on a polynomial chain, or an adaptive adjoint on a closed-form family; an rk23 adjoint only at rk23-sized tolerances"""
+    bm, bt = (bopt or {}).get("method"), _tol_of(bopt or {})
+    if bm is None:
+        return ["euler", "rk4", "rk38", "rk45", "rk45"] + (["rk23"] if bt is None or bt in TOL_RK23 else [])
+    if bm in FIXED4:
+        return ["euler", "rk4", "rk38"]
+    return ["rk45", "rk45", "rk23"]
+
+
+@st.composite
+def bopt_st(draw):
+    """content of the caller's bck_options dict: any subset of {method, atol+rtol}"""
+    bm = draw(st.sampled_from([None, None, None, None, None, "rk45", "rk45", "rk23", "rk4", "rk38"]))
+    if bm == "rk23":
+        tol = (7, 6)
+    else:
+        tol = draw(st.sampled_from([None, None] + TOL_TIGHT + [(7, 6)]))
+    return {"method": bm, "tol_e": list(tol) if tol else None}
+
+
+@st.composite
+def shared_options_st(draw, tier="quick"):
+    ncalls = draw(st.sampled_from([2, 2, 3]))
+    bmode = draw(st.sampled_from(["omitted", "kept", "kept", "kept", "edited"]))      # kept: one dict object, never touched by the caller
+    defer = bmode != "edited" and draw(st.sampled_from([False, False, True]))
+    bopt = draw(bopt_st()) if bmode != "omitted" else None
+    calls = []
+    for i in range(ncalls):
+        if bmode == "edited" and i > 0:
+            bopt = draw(bopt_st())
+        allowed = allowed_methods(bopt)
+        if calls and draw(st.sampled_from([True, True, True, False])):         # mostly: forward options that differ from the previous call's
+            allowed = [m for m in allowed if m != calls[-1]["method"]] or allowed
+        method = draw(st.sampled_from(allowed))
+        bm = (bopt or {}).get("method") or method           # backward method in force
+        bt = _tol_of(bopt or {})
+        if method in ADAPT:
+            if method == "rk23" or (bm == "rk23" and bt is None):
+                tol_e = draw(st.sampled_from(TOL_RK23))
+            else:
+                tol_e = draw(st.sampled_from(TOL_TIGHT + [(6, 5)]))
+            beff = None
+            if bm != method or bt is not None:
+                beff = {}
+                if bm != method:
+                    beff["method"] = bm
+                if bt is not None:
+                    beff["atol_e"], beff["rtol_e"] = bt
+            sub = draw(adaptive_case_st(tier, method, tol_e, beff, 1))
+            task = "adaptive"
+        else:
+            tol_e = None
+            if method == "euler":
+                chain = "const" if bm == "euler" else draw(st.sampled_from(["const", "quadz"]))
+            else:
+                chain = draw(st.sampled_from(["quad3", "chain2", "chain2t", "chain3"]))
+            sub = draw(exact_chain_case_st(method, chain, bm if bm != method else None))
+            task = "exact_chain"
+        if not (any(sub["req"]) or sub["y0req"] or sub["tsreq"]):
+            sub["y0req"] = True
+        calls.append({"task": task, "method": method, "tol_e": list(tol_e) if tol_e else None,
+                      "bopt": dict(bopt) if bopt is not None else None, "sub": sub})
+    return {"calls": calls, "bmode": bmode, "defer": defer, "bwd_order": draw(st.permutations(list(range(ncalls)))) if defer else None}
+
+
+def _apply_content(d, content):
+    """the caller edits its dict object in place so that it holds exactly `content`"""
+    for k in [k for k in d if k not in content]:
+        del d[k]
+    for k, v in content.items():
+        d[k] = v
+
+
+def run_shared_options(case):
+    """A caller keeps ONE forward-options dict and ONE bck_options dict and passes them to 2-3 solve_ivp calls on unrelated
+    problems, editing the forward dict (method, tolerances) - and in 'edited' histories the backward dict - between the calls;
+    the backward passes run right after each call or, 'defer', after all forward calls in a drawn order.  Every call is judged
+    with the closed form of its own problem at the tolerance of the options documented for THAT call: backward options = the
+    forward options of the call overridden by what bck_options held when the call was made.  The caller's dicts must still
+    hold what the caller put there."""
+    import copy
+    torch.manual_seed(0)
+    calls = case["calls"]
+    omitted = case["bmode"] == "omitted"
+    fwd, bck = {}, {}
+    parts, results, verdicts = [], [], [None] * len(calls)
+    dict_bad = None
+    labels = ["task=shared_options", "ncalls=%d" % len(calls), "bmode=" + case["bmode"], "defer=%s" % bool(case["defer"]),
+              "seq=" + ">".join(c["method"] for c in calls),
+              "bck0=" + ("omitted" if omitted else "+".join(k for k in ("method", "tol_e") if calls[0]["bopt"].get(k)) or "empty")]
+
+    def dicts_intact(when):
+        if fwd != want_f or (not omitted and bck != want_b):
+            return ("%s: the caller's option dictionaries changed: fwd %r (was %r), bck_options %r (was %r)" % (when, fwd, want_f, bck, want_b))
+        return None
+    for i, c in enumerate(calls):
+        content = {"method": c["method"]}
+        if c["tol_e"]:
+            content["atol"], content["rtol"] = 10.0 ** (-c["tol_e"][0]), 10.0 ** (-c["tol_e"][1])
+        fwd.update(content)                 # a fixed-step call leaves the tolerances of an earlier adaptive call in the dict (ignored by the method)
+        if not omitted and (i == 0 or case["bmode"] == "edited"):          # 'kept': the caller never touches its dict after creating it
+            bo = c["bopt"]
+            bcontent = {}
+            if bo.get("method"):
+                bcontent["method"] = bo["method"]
+            if bo.get("tol_e"):
+                bcontent["atol"], bcontent["rtol"] = 10.0 ** (-bo["tol_e"][0]), 10.0 ** (-bo["tol_e"][1])
+            _apply_content(bck, bcontent)
+        if i == 0 or case["bmode"] == "edited":
+            want_b = copy.deepcopy(bck)
+        want_f = copy.deepcopy(fwd)
+        part = exact_chain_part(c["sub"]) if c["task"] == "exact_chain" else adaptive_part(c["sub"])
+        res = part.forward(**fwd) if omitted else part.forward(bck_options=bck, **fwd)
+        parts.append(part)
+        results.append(res)
+        dict_bad = dict_bad or dicts_intact("after the forward pass of call %d" % (i + 1))
+        if not case["defer"]:
+            verdicts[i] = part.judge(res)
+            dict_bad = dict_bad or dicts_intact("after the backward pass of call %d" % (i + 1))
+    if case["defer"]:
+        for i in case["bwd_order"]:
+            verdicts[i] = parts[i].judge(results[i])
+            dict_bad = dict_bad or dicts_intact("after the (deferred) backward pass of call %d" % (i + 1))
+    for i, v in enumerate(verdicts):
+        if v.status == "violation":
+            return violation("shared:" + v.kind, "call %d of the history %s (bck_options %s, %s): %s" % (
+                i + 1, " > ".join("%s%s" % (c["method"], tuple(c["tol_e"]) if c["tol_e"] else "") for c in calls),
+                "omitted" if omitted else [c["bopt"] for c in calls] if case["bmode"] == "edited" else calls[0]["bopt"],
+                "backward passes deferred in order %s" % case["bwd_order"] if case["defer"] else "backward right after each call", v.detail), labels)
+    if dict_bad:
+        return violation("caller_options_changed", dict_bad, labels)
+    differ = len({(c["method"], tuple(c["tol_e"] or ())) for c in calls}) > 1
+    labels.append("fwd_options_differ=%s" % differ)
+    return ok(labels, nontrivial=differ and all(v.status == "ok" for v in verdicts) and any(v.nontrivial for v in verdicts))
+
+
 def tasks(tier):
     return [
         Task("exact_chain", strategy=exact_chain_st(tier), run=run_exact_chain, examples={"quick": 1400, "thorough": 14000}),
         Task("adaptive", strategy=adaptive_st(tier), run=run_adaptive, examples={"quick": 240, "thorough": 2000}),
         Task("fixed_conv", strategy=fixed_conv_st(tier), run=run_fixed_conv, examples={"quick": 180, "thorough": 1500}),
         Task("switched", strategy=switched_st(tier), run=run_switched, examples={"quick": 200, "thorough": 2000}),
+        Task("shared_options", strategy=shared_options_st(tier), run=run_shared_options, examples={"quick": 160, "thorough": 1600}),
     ]
